@@ -10,7 +10,6 @@ import (
 	"os"
 	"path/filepath"
 	"runtime"
-	"strings"
 	"time"
 
 	corecrl "github.com/notaryproject/notation-core-go/revocation/crl"
@@ -300,7 +299,9 @@ func (l c12) Exec(env *core.Env) *core.Result {
 					}
 				} else if entry == 0 || entry == 1 {
 					var noPolicy notation.ErrorNoApplicableTrustPolicy
-					config := strings.Contains(verr.Error(), "TrustPolicyDoc is nil")
+					// a verifier built without the document this entry point needs fails before any policy is
+					// selected (known from the construction, not from the wording of the error)
+					config := (entry == 0 && construction == 2) || (entry == 1 && construction == 1)
 					if !errors.As(verr, &noPolicy) && !config {
 						if outcome == nil {
 							res.Violate("C12/failure-without-outcome", what, "verification failed after policy selection (%v) but no outcome was returned", verr)
